@@ -74,7 +74,8 @@ pub proof fn lemma_seq_split_eq(x1: Seq<u8>, y1: Seq<u8>, x2: Seq<u8>, y2: Seq<u
 
 /// a fixed-width big-endian primitive: Err when fewer than `w` bytes, else consumes exactly `w`
 pub open spec fn fixed_post<'a, T>(i: &'a [u8], r: IResult<&'a [u8], T>, w: int) -> bool {
-    if i@.len() < w { r is Err } else { r is Ok && r->Ok_0.0@ == i@.subrange(w, i@.len() as int) }
+    if i@.len() < w { r is Err && r->Err_0 is Error /* complete-mode: recoverable Error(Eof) */ }
+    else { r is Ok && r->Ok_0.0@ == i@.subrange(w, i@.len() as int) }
 }
 
 #[verifier::external_body]
@@ -138,8 +139,24 @@ pub mod nom_c {
         ensures
             forall|i: &'a [u8]| h.requires((i,)),
             forall|i: &'a [u8], r: IResult<&'a [u8], O2>| #[trigger] h.ensures((i,), r) ==>
-                exists|r1: IResult<&'a [u8], O1>| #[trigger] parser.ensures((i,), r1) && (r1 is Err ==> r is Err)
+                exists|r1: IResult<&'a [u8], O1>| #[trigger] parser.ensures((i,), r1) && (r1 is Err ==> r is Err && r->Err_0 == r1->Err_0)
                     && (r1 is Ok ==> r is Ok && r->Ok_0.0 == r1->Ok_0.0 && f.ensures((r1->Ok_0.1,), r->Ok_0.1)),
+    { move |i| { unimplemented!() } }
+
+    /// nom::combinator::cond(b, f): Some(f's value) when b, else None without consuming
+    #[verifier::external_body]
+    pub fn cond<'a, O, F: Fn(&'a [u8]) -> IResult<&'a [u8], O>>(b: bool, f: F)
+        -> (h: impl Fn(&'a [u8]) -> IResult<&'a [u8], Option<O>>)
+        requires forall|i: &'a [u8]| f.requires((i,)),
+        ensures
+            forall|i: &'a [u8]| h.requires((i,)),
+            forall|i: &'a [u8], r: IResult<&'a [u8], Option<O>>| #[trigger] h.ensures((i,), r) ==>
+                if b {
+                    exists|r1: IResult<&'a [u8], O>| #[trigger] f.ensures((i,), r1) && (r1 is Err ==> r is Err && r->Err_0 == r1->Err_0)
+                        && (r1 is Ok ==> r is Ok && r->Ok_0.0 == r1->Ok_0.0 && r->Ok_0.1 == Some(r1->Ok_0.1))
+                } else {
+                    r is Ok && r->Ok_0.0 == i && r->Ok_0.1 is None
+                },
     { move |i| { unimplemented!() } }
 
     /// chain of `n` successful applications of f starting at `i`, producing `vals` and ending at `end`
@@ -161,6 +178,37 @@ pub mod nom_c {
                 && (r is Err ==> exists|ins: Seq<&'a [u8]>, vals: Seq<O>, k: int, e: nom::Err<nom::error::Error<&'a [u8]>>|
                                 0 <= k < n && #[trigger] count_ok(f, k, ins, vals) && ins[0] == i
                                 && #[trigger] f.ensures((ins[k],), Err(e)))),
+    { move |i| { unimplemented!() } }
+
+    /// nom::combinator::complete(f): f, with Incomplete turned into an Error
+    #[verifier::external_body]
+    pub fn complete<'a, O, F: Fn(&'a [u8]) -> IResult<&'a [u8], O>>(f: F)
+        -> (h: impl Fn(&'a [u8]) -> IResult<&'a [u8], O>)
+        requires forall|i: &'a [u8]| f.requires((i,)),
+        ensures
+            forall|i: &'a [u8]| h.requires((i,)),
+            forall|i: &'a [u8], r: IResult<&'a [u8], O>| #[trigger] h.ensures((i,), r) ==>
+                exists|r1: IResult<&'a [u8], O>| #[trigger] f.ensures((i,), r1) && (r1 is Ok ==> r == r1)
+                    && (r1 is Err ==> r is Err && !(r->Err_0 is Incomplete) && (r1->Err_0 is Failure <==> r->Err_0 is Failure)),
+    { move |i| { unimplemented!() } }
+
+    /// nom::multi::many0(f): apply f until it fails with a (recoverable) Error; a Failure is propagated;
+    /// a success that consumes nothing is an Error (infinite-loop guard)
+    #[verifier::external_body]
+    pub fn many0<'a, O, F: Fn(&'a [u8]) -> IResult<&'a [u8], O>>(f: F)
+        -> (h: impl Fn(&'a [u8]) -> IResult<&'a [u8], Vec<O>>)
+        requires forall|i: &'a [u8]| f.requires((i,)),
+        ensures
+            forall|i: &'a [u8]| h.requires((i,)),
+            forall|i: &'a [u8], r: IResult<&'a [u8], Vec<O>>| #[trigger] h.ensures((i,), r) ==> (
+                (r is Ok ==> exists|ins: Seq<&'a [u8]>, k: int, e: nom::Err<nom::error::Error<&'a [u8]>>|
+                                0 <= k && #[trigger] count_ok(f, k, ins, r->Ok_0.1@) && ins[0] == i && ins[k] == r->Ok_0.0
+                                && #[trigger] f.ensures((ins[k],), Err(e)) && e is Error
+                                && forall|j: int| 0 <= j < k ==> (#[trigger] ins[j + 1])@.len() != ins[j]@.len())
+                && (r is Err ==> exists|ins: Seq<&'a [u8]>, vals: Seq<O>, k: int|
+                                0 <= k && #[trigger] count_ok(f, k, ins, vals) && ins[0] == i
+                                && ((exists|e: nom::Err<nom::error::Error<&'a [u8]>>| #[trigger] f.ensures((ins[k],), Err(e)) && !(e is Error))
+                                    || (exists|nx: &'a [u8], v: O| #[trigger] f.ensures((ins[k],), Ok((nx, v))) && nx@.len() == ins[k]@.len())))),
     { move |i| { unimplemented!() } }
 }
 pub mod nom_paths {
